@@ -53,7 +53,7 @@ def generate(rng, ctx):
     f = gen.gen_field(rng, fam, depth=2 if rng.random() < 0.3 else 1, families=gen.SCALAR_FAMILIES + ["list", "dict"])
     f["key"] = "f0"
     n = rng.randrange(30, 81 if ctx.tier == "thorough" else 50)
-    return {"field": f, "values": gen.candidates(rng, f, n), "seed": rng.getrandbits(32)}
+    return {"field": f, "values": gen.candidates(rng, f, n, gen.GEN_ENV), "seed": rng.getrandbits(32)}
 
 
 def probes(ctx):
